@@ -385,6 +385,21 @@ pub fn run(tier: Tier) -> Run {
         run.add_all(e.viols.iter().map(|v| Viol { key: format!("{}:ids{}", v.key, scheme), what: format!("(id scheme {}) {}", scheme, v.what), replay: v.replay.clone() }));
         scheme_transitions += e.transitions;
     }
+    // one step deeper over a reduced alphabet (the width classes, constants / selectors of the first four ids,
+    // function boundaries), under every id scheme: defects that need two earlier declarations AND a boundary
+    let reduced: Vec<TOp> = vec![
+        TOp::TInt(32, 0), TOp::TInt(64, 1), TOp::TInt(128, 0), TOp::TFloat(64), TOp::TFloat(8),
+        TOp::Const(0, 1), TOp::Const(0, 2), TOp::Const(1, 2), TOp::Const(2, 1), TOp::Const(2, 2), TOp::ConstOfNext(2),
+        TOp::Undef(0), TOp::Undef(1), TOp::Undef(2), TOp::Copy(1),
+        TOp::Switch(1, 1, 2), TOp::Switch(2, 1, 2), TOp::Switch(3, 1, 1), TOp::Switch(3, 1, 2),
+        TOp::Function, TOp::FunctionEnd,
+    ];
+    for scheme in 0..ID_SCHEMES {
+        let f = |h: &[TOp]| run_hist_s(h, scheme);
+        let e = xs::enumerate(&reduced, d_enum + 1, &f);
+        run.add_all(e.viols.iter().map(|v| Viol { key: format!("{}:ids{}", v.key, scheme), what: format!("(id scheme {}) {}", scheme, v.what), replay: v.replay.clone() }));
+        scheme_transitions += e.transitions;
+    }
     run.outcome("transitions_under_other_id_schemes", scheme_transitions);
 
     // ---- independence: parsing A and then B gives for B exactly what parsing B alone gives
